@@ -18,7 +18,11 @@ extern "C" void h_gzip()
     QByteArray orig(""); 
     for (int i = 0; i < VF_NB; ++i) { unsigned char b = vf_nondet_u8(); if (i < n) orig.append(char(b)); }
     env_put_file(QStringLiteral("r"), orig, 0, 0);
+#ifdef VF_NOCRASH
+    int k = 1000;
+#else
     int k = vf_range(0, 12);
+#endif
     env_crash_at(env_ops() + k);            // the process may die at any operation of compressFile (k beyond the last = no crash)
     int ops0 = env_ops();
     sink.d->compressFile(env_path(QStringLiteral("r")));
